@@ -71,6 +71,21 @@ func (p *Prog) CallOf(ins ssa.Instruction) *Call {
 	c.Static = fn
 	c.Name = p.shortName(fn.String())
 	args := cc.Args
+	// the typed atomics of sync/atomic are the same operations as the functions: x.Add(1) on an atomic.Int32 is
+	// atomic.AddInt32(&x, 1). Present them the same way so that every rule reads both spellings.
+	if bound == nil && fn.Signature.Recv() != nil && len(args) > 0 {
+		if nt := derefNamed(fn.Signature.Recv().Type()); nt != nil && nt.Obj().Pkg() != nil && nt.Obj().Pkg().Path() == "sync/atomic" {
+			switch fn.Name() {
+			case "Add", "Load", "Store", "Swap", "CompareAndSwap", "And", "Or":
+				switch nt.Obj().Name() {
+				case "Int32", "Int64", "Uint32", "Uint64", "Uintptr", "Bool", "Pointer", "Value":
+					c.Name = "sync/atomic." + fn.Name() + nt.Obj().Name()
+					c.Args = args
+					return c
+				}
+			}
+		}
+	}
 	if bound != nil {
 		c.Recv = bound
 		c.Args = args
